@@ -30,6 +30,58 @@ def classify(f):
     return None
 
 
+TSZ = {1: "u8", 2: "u16", 4: "u32", 8: "u64"}
+
+
+def search_exprs(ck, exe, work):
+    """search stage for a broken proof about the translated decision expressions: evaluate the
+    expression as the code has it now against its specification on a small grid, then replay a
+    counterexample on the real generator with a program built from it"""
+    try:
+        ex = json.load(open(os.path.join(VERIF, ".cache", "c01_exprs.json")))
+    except Exception:
+        return
+    for d1 in range(0, 17):
+        for d2 in range(0, 17):
+            for size1 in (1, 2, 4, 8):
+                for size2 in (1, 2, 4, 8):
+                    got = bool(eval(ex["intersect"], {}, dict(disp1=d1, disp2=d2, size1=size1, size2=size2)))
+                    want = max(d1, d2) < min(d1 + size1, d2 + size2)
+                    if got == want:
+                        continue
+                    # loc1 = the later load, loc2 = the earlier store (argument order of the DSE query is
+                    # not known here: try both)
+                    for (ls, ss, ld, sd) in ((size1, size2, d1, d2), (size2, size1, d2, d1)):
+                        text = (f"m: module\nexport f\nf: func i64, i64:a, i64:b\n  local i64:p, i64:q, i64:r\n  alloca p, 64\n"
+                                f"  mov u64:(p), 0\n  mov u64:8(p), 0\n  mov u64:16(p), 0\n  mov u64:24(p), 0\n"
+                                f"  mov {TSZ[ss]}:{sd}(p), a\n  add q, p, {ld}\n  mov r, {TSZ[ls]}:(q)\n  mov {TSZ[ss]}:{sd}(p), b\n"
+                                f"  mov q, {TSZ[ss]}:{sd}(p)\n  add r, r, q\n  ret r\n  endfunc\n  endmodule\n")
+                        plan = "call f ii_i 1122334455667788 0\ncall f ii_i ffffffffffffffff 1\n"
+                        rc, lines, err = progtie.run_engine(exe, ENGINES, text, plan, work, "exprsearch", timeout=60)
+                        badl = [l for l in lines if l.startswith("R ") and " | =" not in l] + [l for l in lines if l.startswith("E ")]
+                        if rc != 0 or badl:
+                            ck.violation({"stage": "search", "theorem": "intersect_spec (Props/C01Exprs.lean)",
+                                          "counterexample": {"disp1": d1, "disp2": d2, "size1": size1, "size2": size2,
+                                                             "code_says_overlap": got, "bytes_overlap": want},
+                                          "mir": text, "plan": plan, "engines": ENGINES, "lines": badl[:4]},
+                                         what=f"alloca_mem_intersect_p answers {got} for disp1={d1} size1={size1} disp2={d2} size2={size2} "
+                                              f"although the byte ranges {'do' if want else 'do not'} overlap; program built from it: {badl[:1]}")
+                            return
+                    ck.broken_ties.append({"kind": "theorem", "name": "intersect_spec", "counterexample": [d1, d2, size1, size2],
+                                           "note": "expression differs from its specification but the generated program did not expose it"})
+                    return
+    for a1 in range(3):
+        for a2 in range(3):
+            for n1 in range(3):
+                for n2 in range(3):
+                    got = bool(eval(ex["may_alias"], {}, dict(alias1=a1, alias2=a2, nonalias1=n1, nonalias2=n2)))
+                    want = (a1 == 0 or a2 == 0 or a1 == a2) and not (n1 != 0 and n2 != 0 and n1 == n2)
+                    if got != want:
+                        ck.broken_ties.append({"kind": "theorem", "name": "may_alias_spec", "counterexample": [a1, a2, n1, n2],
+                                               "code_says": got, "spec_says": want})
+                        return
+
+
 def run_corpus(ck, exe, work):
     n = 0
     for mir in sorted(glob.glob(os.path.join(VERIF, "corpus", "C01", "*.mir"))):
@@ -54,11 +106,11 @@ def run_corpus(ck, exe, work):
 def main():
     ck = Check("C01")
     quick = ck.tier == "quick"
-    ck.proof_gate(["MirVerif.Props.C01"],
+    gate_ok = ck.proof_gate(["MirVerif.Props.C01", "MirVerif.Props.C01Exprs"],
                   support_modules=["MirVerif.Model.GenTable", "MirVerif.Model.GenCanon", "MirVerif.Lemmas.GenTable",
                                    "MirVerif.Lemmas.GenPow2"],
                   bridge_modules=["MirVerif.Lemmas.BridgeC01", "MirVerif.Lemmas.BridgeC02"],
-                  translators=["c01_tables.py", "c02_tables.py"])
+                  translators=["c01_tables.py", "c02_tables.py", "c01_exprs.py"])
     if not quick:
         ck.leanchecker(["MirVerif.Props.C01"])
     exe = ck.cc("engine", ["harness/engine.c", os.path.join(REPO, "mir.c"), os.path.join(REPO, "mir-gen.c")],
@@ -78,6 +130,8 @@ def main():
             ck.violation(dict(rep, observed_now=(bad + [err[-200:]])[:4]), what="replayed program still fails: " + str((bad + [err[-120:]])[0])[:200])
         shutil.rmtree(work, ignore_errors=True)
         ck.finish()
+    if not gate_ok:
+        search_exprs(ck, exe, work)
     ncorp = run_corpus(ck, exe, work)
     nprogs = 6000 if quick else 120000
     opts = dict(jmpi=True)
